@@ -8,7 +8,7 @@ export GOFLAGS=-mod=mod GOPROXY=off GOSUMDB=off GOTOOLCHAIN=local
 S="$(mktemp -d /tmp/confirm-XXXXXX)"; trap 'rm -rf "$S"' EXIT
 cp -r /repo/bigtable /repo/storage "$S/"
 cp "$DEMO" "$S/$MOD/$PKG/zz_seed_demo_test.go"
-cd "$S/$MOD"
+cd "$S/$MOD"; export TMPDIR="$S/tmp"; mkdir -p "$TMPDIR"
 go test -vet=off -count=1 -run "$RUN" "$@" "./$PKG/" > "$S/clean.log" 2>&1; rc_clean=$?
 (cd "$S" && git apply --unsafe-paths -p1 "$PATCH") || { echo "CONFIRM patch-applies=NO"; exit 9; }
 go test -vet=off -count=1 -run "$RUN" "$@" "./$PKG/" > "$S/mut.log" 2>&1; rc_mut=$?
